@@ -21,7 +21,7 @@ RULE = (
     "one map per configuration (default incl. Submount / Subdomain / per-method rules of one endpoint / websocket "
     "rules, defaults twins declared after the general rule, variable subdomain, host_matching incl. host rules in "
     "a Submount, default_subdomain, sort_parameters, rule factories: EndpointPrefix, RuleTemplate with templated "
-    "defaults, nested Submount / Subdomain / EndpointPrefix) with one rule per converter form; values: every string of <= 2 atoms (3 in thorough) over a 27-atom alphabet "
+    "defaults, nested Submount / Subdomain / EndpointPrefix) with one rule per converter form; values: every string of <= 2 atoms over a 27-atom alphabet plus every string of 3 atoms over the 10 critical atoms (thorough: <= 3 atoms over all 27) "
     "(letters, non-ASCII, astral, space, every URL delimiter, '%', '%2F', '.', backslash, control characters "
     "incl. newline) filtered by the converter's documented domain, ints incl. signed / fixed_digits, floats with "
     "positional str(), UUIDs, paths of 2-3 such segments; each x script_name {/, /app, /app/} x force_external x "
@@ -49,6 +49,7 @@ from werkzeug.routing.exceptions import RequestRedirect  # noqa: E402
 
 ATOMS = ["a", "é", " ", ";", "?", "#", "%", "+", "&", "=", ":", "@", "~", '"', "<", "𝄞", "%2F", ".", "\\",
          "\n", "\r", "\t", "\x00", "[", "|", "{", "\u2028"]
+CRIT = ["a", "é", " ", "?", "#", "%", "%2F", ";", "+", "\n"]
 SEG_ATOMS = ["a", "é", " ", "?", "#", "%", "+", ";", "%2F", ".", "\n", "𝄞"]
 
 U1 = uuid.UUID(int=1)
@@ -64,7 +65,7 @@ def paths(tier):
     single = list(gen.strings(ATOMS, 1, 1))
     for a, b in itertools.product(single, repeat=2):
         out.append(a + "/" + b)
-    for t in itertools.product(SEG_ATOMS[:8] if tier == "quick" else SEG_ATOMS, repeat=3):
+    for t in itertools.product(SEG_ATOMS[:10] if tier == "quick" else SEG_ATOMS, repeat=3):
         out.append("/".join(t))
     out += ["a//b", "a/b/c/d", "x y/é", "a"] + single
     two = list(gen.strings(SEG_ATOMS, 2, 2))
@@ -86,9 +87,14 @@ FLOATS = [0.0, 1.5, 10.25, 100.125, 123456789.125, 0.001]
 
 def value_sets(tier):
     T = tier == "thorough"
-    d = 3 if T else 2
-    S = strings(d)
     S2 = strings(2)
+    if T:
+        S = strings(3)
+    else:
+        # quick: all strings of <= 2 atoms, plus all strings of exactly 3 atoms over the critical atoms (non-ASCII,
+        # space, both URL delimiters, '%', the encoded slash, ';', '+', newline) - a subset of thorough's depth 3
+        seen = set(S2)
+        S = S2 + [x for x in gen.strings(CRIT, 3, 3) if x not in seen]
     P = paths(tier)
     return {
         "s": S, "s2": [v for v in S2 if len(v) == 2], "s3": [v for v in S if len(v) >= 2],
@@ -101,8 +107,8 @@ def value_sets(tier):
         "list": [(1, 10), (2, 10), (1, 5), (3, 7)], "k": ["en", "é", "a b"], "n": [1, 2, 10],
         "imm": [3, 5, 9],
         # same option names, different option values: values valid for exactly one rule of each pair
-        "l2": [v for v in S2 if len(v) == 2][:80], "l5": CH5[:120], "n2": [v for v in S2 if len(v) >= 2][:80] + CH5[:20],
-        "n4": CH5[:80] + ["abcd", "é ;?"], "x2": [v for v in S2 if len(v) <= 2][:80], "x12": CH5[:80] + ["abc", "a" * 12],
+        "l2": [v for v in S2 if len(v) == 2][:80], "l5": CH5[:400] if not T else CH5, "n2": [v for v in S2 if len(v) >= 2][:80] + CH5[:20],
+        "n4": (CH5[:300] if not T else CH5) + ["abcd", "é ;?"], "x2": [v for v in S2 if len(v) <= 2][:80], "x12": (CH5[:300] if not T else CH5) + ["abc", "a" * 12],
         "b24": ["ab", "abc", "abcd", "é ;?"], "b13": ["a", "ab", "abc", "%2F"],
         "d3": [0, 7, 12, 999], "d8": [0, 7, 12345678, 99999999], "sd4": [0, -5, 123, -123, 9999],
         "sd6": [0, -5, 12345, -12345, 999999], "r29": [2, 5, 9], "r99": [10, 50, 99], "fr1": [0.5, 1.0, 1.5],
@@ -123,19 +129,19 @@ def value_sets(tier):
         "it": [(2, False), (2, True), (0, False), (0, True)], "e0": [(2, ""), (2, "x"), (0, ""), (0, "x")],
         "f": FLOATS, "sf": FLOATS + [-x for x in FLOATS] ,
         "any": ["a", "b"], "u": [U1, U2],
-        "p": P, "pb": P, "pe": P[: len(P) // 2], "pp": P[:200],
+        "p": P, "pb": P, "pe": P, "pp": P[:200],
         "sm": S, "sd": S, "def": [1, 2, 10], "defs": ["en", "é", "a b"],
         # other configurations
-        "su": S if T else S2[:120], "h": S if T else S2[:120], "hv": S if T else S2[:120],
+        "su": S if T else S2, "h": S, "hv": S if T else S2,
         "hs": S2 if T else S2[:60], "hsv": S2 if T else S2[:60],
         # round 2: build(method=), websocket rules, host= on a map without host matching, default_subdomain,
         # sort_parameters, rule factories and their nestings
-        "m_default": S if T else S2[:200], "m_post": S if T else S2[:200], "m_put": S2 if T else S2[:60],
-        "w": S if T else S2[:200], "wsub": S2 if T else S2[:60], "hi": S2 if T else S2[:60],
-        "dx": S if T else S2[:120], "dy": S2 if T else S2[:120], "so": S2 if T else S2[:120],
-        "ep.e": S if T else S2[:200], "tpl.show": (S if T else S2[:200]) + ["idx"], "nest": S if T else S2[:200],
-        "x.k": [0, 7, 12, 2 ** 64], "tp": P if T else P[:300],
-        "sv": S if T else S2[:120], "m.mm": S if T else S2[:120], "deep.a.b": S if T else S2[:120],
+        "m_default": S, "m_post": S, "m_put": S2 if T else S2[:60],
+        "w": S, "wsub": S2 if T else S2[:60], "hi": S2 if T else S2[:60],
+        "dx": S, "dy": S2 if T else S2[:120], "so": S2 if T else S2[:120],
+        "ep.e": S, "tpl.show": S + ["idx"], "nest": S,
+        "x.k": [0, 7, 12, 2 ** 64], "tp": P,
+        "sv": S if T else S2, "m.mm": S if T else S2[:120], "deep.a.b": S if T else S2,
         "f.ws": S2 if T else S2[:120], "wst": S2 if T else S2[:120],
     }
 
@@ -846,7 +852,7 @@ def finalize(R, tier):
     missing = need - R.used
     if missing:
         raise core.Broken(f"vacuity: never exercised {sorted(missing)}")
-    return {"bound": "strings <= 2 atoms, paths 2-3 segments" if tier == "quick" else "strings <= 3 atoms, paths 2-3 segments",
+    return {"bound": "strings <= 2 atoms + 3 atoms over 10 critical atoms, paths 2-3 segments" if tier == "quick" else "strings <= 3 atoms, paths 2-3 segments",
             "exhaustive": True,
             "explanation": "every (endpoint, value, script_name, force_external, scheme, extra query) combination of "
                            "the stated finite sets went through build -> deliver -> match -> build"}
